@@ -132,7 +132,7 @@ def check(ctx):
                 variants.append(("order_by=%r, reverse=%s" % (ob, rev), a_))
         for variant, a in variants:
             try:
-                got = it.run(f, dict(a), self_obj=Opaque("self", "obj"))
+                got = it.run(f, dict(a), self_obj=Opaque("self", "FeatureDB"))
                 ref = it.run(mq, dict(args=[], **a))
             except Unsupported as e:
                 ctx.require(False, "%s outside the analysable subset: %s" % (qual, e))
